@@ -52,6 +52,12 @@ Definition left_alone (p p' : profile) : Prop :=
 Definition lines_attached (p p' : profile) : Prop :=
   Forall2 (fun l l' => l' = l \/ l_lines l' <> []) (p_location p) (p_location p').
 
+(* the has-symbols flags are only ever raised *)
+Definition flags_le (m m' : mapping) : Prop :=
+  (m_hasfn m = true -> m_hasfn m' = true) /\ (m_hasfile m = true -> m_hasfile m' = true) /\
+  (m_hasline m = true -> m_hasline m' = true) /\ (m_hasinline m = true -> m_hasinline m' = true).
+Definition flags_raised (p p' : profile) : Prop := Forall2 flags_le (p_mapping p) (p_mapping p').
+
 (* demangling never replaces a non-empty name by an empty one *)
 Definition names_kept (p p' : profile) : Prop :=
   extended (fun f f' => f_name f <> EmptyString -> f_name f' <> EmptyString) (p_function p) (p_function p').
@@ -122,6 +128,11 @@ Definition location_eqb (a b : location) : bool :=
 
 Definition lines_attachedb (p p' : profile) : bool :=
   list_eqb (fun l l' => location_eqb l' l || negb (is_nil (l_lines l'))) (p_location p) (p_location p').
+
+Definition flags_leb (m m' : mapping) : bool :=
+  implb (m_hasfn m) (m_hasfn m') && implb (m_hasfile m) (m_hasfile m') &&
+  implb (m_hasline m) (m_hasline m') && implb (m_hasinline m) (m_hasinline m').
+Definition flags_raisedb (p p' : profile) : bool := list_eqb flags_leb (p_mapping p) (p_mapping p').
 
 Definition loc_protectedb (p : profile) (l : location) : bool :=
   forallb (fun m => negb (m_id m =? l_mapping l) || m_hasfn m) (p_mapping p).
